@@ -136,6 +136,9 @@ func IsNaN(x float64) bool { return x != x }
 // Finite reports that x is neither NaN nor infinite.
 func Finite(x float64) bool { return !math.IsNaN(x) && !math.IsInf(x, 0) }
 
+// Tiered returns q in the quick tier and t in the thorough tier (used for the sizes of constant lists).
+func Tiered(q, t int) int { return t }
+
 // Symbolic is true under the symbolic executor and false in native replay.
 func Symbolic() bool { return false }
 
